@@ -29,8 +29,15 @@ def gen(rng, tier, open_keys):
     return B.gen(rng, tier, B.C08_KINDS, risky=KEY_D24 not in open_keys)
 
 
+def _many(n, backend, pubs):
+    subs = " ".join(f"(sub {i} open)" for i in range(n))
+    return f"(broker (backend {backend}) (opts (parallel 1) (workers 1) (buffer 0)) (script {subs} {pubs}))"
+
+
 def corpus():
     return [
+        # parallel dispatch to many subscribers (fan-out wider than any internal batch size)
+        _many(33, "queue unl", "(pub 0 2) (quiesce) (pub 1 1) (quiesce)"), _many(40, "chan 0", "(pub 0 3) (quiesce)"),
         "(broker (backend chan 0) (opts (parallel 0) (workers 1) (buffer 0)) (script (sub 0 open) (sub 1 open) (pub 0 3) (pub 1 2) (quiesce)))",
         "(broker (backend deque unl) (opts (parallel 0) (workers 1) (buffer 0)) (script (sub 0 gated) (pub 0 5) (quiesce) (open 0) (quiesce)))",
         "(broker (backend queue unl) (opts (parallel 1) (workers 3) (buffer 0)) (script (sub 0 open) (sub 1 gated) (hold) (pub 0 3) (quiesce) (release) (open 1) (quiesce)))",
